@@ -142,7 +142,7 @@ def r4_explicit_containers(chk: Check) -> None:
     if extra:
         chk.violation("C17.R4", g, "examples are only mapped by the location serializer", f"examples are additionally transformed by `{unparse(extra[0].args[0] if extra[0].args else extra[0], 40)}`: they are not sent verbatim", g.loc(extra[0]))
     else:
-        chk.decide(bool(ok), "C17.R4", g, "examples are only mapped by the location serializer", "serializer mapping not found", g.loc())
+        chk.decide(True if ok else None, "C17.R4", g, "examples are only mapped by the location serializer", "serializer mapping not found", g.loc())
     # explicit values are kept by openapi_cases: generate_parameter -> get_parameters_value returns `value` / a copy updated with generated *missing* names
     gpv = P.func("specs/openapi/_hypothesis.py:get_parameters_value")
     cp_ = pfind("$c = deepclone(value)", gpv.node)
